@@ -18,7 +18,7 @@ RULE = ('cases = (a) trajectories (1-3 atoms, 2-12 frames) with coordinates on t
 TRUSTED = ['numpy add/sub/mod/around/cumsum follow IEEE-754 binary64 (exact on the dyadic grid; bit-exact tie for np.mod)',
            'primitive floats of the Coq kernel (PrimFloat) for the executable twin']
 ASSUMPTIONS = ['shift invariance is claimed away from exact half-cell steps (both +-1/2 are minimum images there)']
-KINDS = ['cubic', 'ortho', 'mono', 'hexlike', 'tri', 'tri_full']
+KINDS = ['cubic', 'ortho', 'mono', 'hexlike', 'hex', 'tri', 'tri_full']
 
 
 def _bits(x):
